@@ -148,7 +148,7 @@ def judge(ctx, case, r, via="worker"):
         li = c.get("loop_iters", 0)
         bound = 10 * (n_el * (1 + li) + n_out + 16) ** 2
         if c.get("elem_evals", 0) > bound:
-            nested = c.get("depth_max", 0) >= 6
+            nested = c.get("depth_max", 0) >= 4 and case.get("nested")
             sig = "blowup@" + ("nested-retries" if nested else "flat")
             acc.violation("blow-up", sig, case,
                           observed=dict(elem_evals=c.get("elem_evals"), retry_passes=c.get("retry_passes"),
@@ -164,12 +164,42 @@ def nontrivial(r):
     return bool(c.get("elem_evals") or c.get("expr_evals") or c.get("scanner_steps")) or r.crashed
 
 
+def nested_forward_ref(data, min_depth=3):
+    """Does the input contain the mechanism of the known finding blowup@nested-retries: an element reference (#id) to an
+    id that is defined later in the document (or never), written inside >= min_depth nested container elements?
+    Only such inputs may be signed 'nested-retries'; any other blow-up gets its own signature."""
+    try:
+        text = data.decode("utf-8", "replace")
+    except Exception:
+        return False
+    defs = {}
+    for m in re.finditer(r'\bid="([^"]+)"', text):
+        defs.setdefault(m.group(1), m.start())
+    depth = 0
+    pos_depth = []
+    for m in re.finditer(r"<(/?)(g|svg|defs|a|symbol|if|loop|for|specs|clipPath|marker|pattern|mask|switch)\b[^>]*?(/?)>", text):
+        if m.group(1):
+            depth = max(0, depth - 1)
+        elif not m.group(3):
+            depth += 1
+        pos_depth.append((m.end(), depth))
+    import bisect
+    ends = [p for p, _ in pos_depth]
+    for m in re.finditer(r"#([A-Za-z_][\w-]*)", text):
+        i = bisect.bisect_right(ends, m.start()) - 1
+        d = pos_depth[i][1] if i >= 0 else 0
+        # nested at least min_depth deep below the root <svg>
+        if d - 1 >= min_depth and defs.get(m.group(1), 1 << 60) > m.start():
+            return True
+    return False
+
+
 def check_case(ctx, case):
     acc = ctx.acc
     data = case["input"]
     cfg = case.get("cfg")
     acc.cases += 1
-    nested = bool(case.get("nested")) or data.count(b"<g") >= 6
+    nested = nested_forward_ref(data)
     case["nested"] = nested
     r = ctx.run(data, cfg, api="probe", stack_kib=STACK, max_evals=eval_budget(data, cfg))
     sig = judge(ctx, case, r)
